@@ -448,10 +448,12 @@ def detectStages (within : Lookup) (r : Rec) (rules : List RuleM) : E Stages := 
     clustersOfRule r rule x.2
   let found ← mergeOverOrigin r rules found.flatten
   let (extended, domsExt) ← applyExtenders within r rules found
+  -- cores that extenders brought within the cutoff of each other are joined before superiors are
+  -- considered (D66-C03): `extended` is what `remove_redundant_protoclusters` receives
+  let extended ← mergeOverOrigin r rules extended
   let kept ← removeRedundant within rules extended
-  let merged ← mergeOverOrigin r rules kept
   let doms := stripInferior rules (doms0 ++ domsExt)
-  let final := merged.map fun pc =>
+  let final := kept.map fun pc =>
     let cds := (within pc.loc false).filter fun g => !g.hits.isEmpty
     ⟨pc, (cds.map fun g => (g.id, doms.get g.id pc.rule)).filter fun x => !x.2.isEmpty⟩
   pure ⟨anchors, found, extended, kept, final⟩
